@@ -160,6 +160,16 @@ PoolC03cont(contAxes) ==
             \cup {Path(FALSE, <<st, Step("child", NTAny, <<q>>)>>) : q \in ContPos}
             \cup {Path(TRUE, <<DosNode, st, Step("child", NTAny, <<q>>)>>) : q \in ContPos}
           : nt \in TestsA, p \in ContPos }
+\* the forms above used as PREDICATES (path existence), i.e. evaluated again for every candidate of a host step:
+\*   host[child::t[n]]   host[(flat path)[n]]   host[child::t[last()]]   host[not((path)[n])]
+NestedPos ==
+    {Path(FALSE, <<Step("child", nt, <<p>>)>>) : nt \in TestsA, p \in ContPos}
+    \cup {Filter(pa, <<N(n)>>, <<>>) : n \in 1 .. 3,
+             pa \in {Rel1("child", NTAny), Rel1("child", NTName("a")), Rel1("descendant", NTName("a")),
+                     Path(FALSE, <<Step("child", NTAny, <<>>), Step("child", NTAny, <<>>)>>)}}
+PoolC03nested(hostAxes) ==
+    UNION {HostForms(Step(hax, NTAny, <<q>>)) : hax \in hostAxes,
+             q \in NestedPos \cup {Call("not", <<x>>) : x \in NestedPos} \cup {Bin("=", x, Lit("1")) : x \in NestedPos}}
 \* (flat path)[n]  and  (//name)[n]
 PoolC03paren(paths, maxN) == {Filter(pa, <<N(n)>>, <<>>) : pa \in paths, n \in 1 .. maxN}
 
